@@ -4,11 +4,11 @@ package main
 // what each call returned; evaluates HMAC/PBKDF2/one-shot table cases with the real code.
 
 import (
-	"fmt"
 	"bufio"
 	"bytes"
 	"crypto/hmac"
 	"encoding/json"
+	"fmt"
 	"hash"
 	"os"
 	"strconv"
